@@ -2,5 +2,5 @@
 # run one simulation: run1.sh <engine> <seed> [extra env...]
 . /verif/env.sh
 export VERIF_DIR=${VERIF_DIR:-/verif}
-export GODEBUG=asyncpreemptoff=1,randautoseed=0
+export GODEBUG=asyncpreemptoff=1,randautoseed=0 GOMAXPROCS=1
 VERIF_ENGINE=$1 VERIF_SEED=$2 exec /verif/.build/sim.test -test.run '^TestSim$' -test.cpu 1 -test.timeout 10m
